@@ -7,10 +7,15 @@
    with the dispatch_enabled setter as far as these relays are concerned.
    desper/bisect.py is Logic/Bisect.v.
 
-   Callbacks are data: a processor double only logs ([ERun p dt] for
-   process, [EAdd p] / [ERemove p] for on_add / on_remove).  Operations are
-   issued at top level only (a processor that mutates the processor list
-   from inside process() is outside the property's quantifier).
+   Callbacks are data.  on_add / on_remove doubles only log ([EAdd p] /
+   [ERemove p]).  A processor body (its process(dt)) runs a script of
+   add_processor / remove_processor / get_processor / dispatch_enabled
+   actions on its own world: a frame is observed as the list of bodies that
+   ran, each with the actions it performed and what was observed of each
+   (log-driven: the actions are the user's code, the model replays them).
+   process() as repaired (commit 3cbc7cb) iterates over a snapshot of the
+   sorted list and calls a processor only if it is still the registered one
+   of its type.  world.process() from inside a processor stays outside.
 
    Models only: no proofs in this file. *)
 From Coq Require Import ZArith List Bool.
@@ -52,7 +57,6 @@ Inductive op :=
          p.priority (class or instance level) read just before the call *)
 | ORemove (t : Z)              (* world.remove_processor(T) *)
 | OGet (t : Z)                 (* world.get_processor(T) *)
-| OProcess (dt : Z)            (* world.process(dt) *)
 | OEnable (b : bool).          (* world.dispatch_enabled = b *)
 
 (* what the harness observes of one operation *)
@@ -63,7 +67,15 @@ Record obs := {
   o_procs : list Z;       (* world.processors read right after the operation *)
   o_flag  : bool;         (* OAdd: p.world is this world;  otherwise true *)
 }.
-Definition trace := list (op * obs).
+(* one processor body that ran in a frame: who, with which dt, and the
+   actions it performed on the world, each with its observation *)
+Record body := { b_pid : Z; b_dt : Z; b_acts : list (op * obs) }.
+
+Inductive item :=
+| Step (o : op) (ob : obs)                      (* an operation issued at top level *)
+| Frame (dt : Z) (bs : list body) (ob : obs).   (* world.process(dt): the bodies that ran, in order;
+                                                   ob: outcome and world.processors afterwards *)
+Definition trace := list item.
 
 (* ---- decidable equalities on observations ------------------------------ *)
 Definition opt_eqb (a b : option Z) : bool :=
@@ -194,9 +206,14 @@ Definition set_enabled (st : state) (b : bool) : state * list ev :=
   if b then ({| sorted := sorted st; procs := procs st; enabled := true; queue := [] |}, queue st)
   else ({| sorted := sorted st; procs := procs st; enabled := false; queue := queue st |}, []).
 
-(* process(dt): every processor of the list, in list order, with dt *)
+(* the test of process(): self._processors.get(type(processor)) is processor *)
+Definition registered (st : state) (e : entry) : bool :=
+  opt_eqb (alookup (e_ty e) (procs st)) (Some (e_pid e)).
+
+(* process(dt) when the bodies do not touch the world (used by C19): every
+   processor of the list that is registered, in list order, with dt *)
 Definition process (st : state) (dt : Z) : list ev :=
-  map (fun e => ERun (e_pid e) dt) (sorted st).
+  map (fun e => ERun (e_pid e) dt) (filter (registered st) (sorted st)).
 
 (* World.processors *)
 Definition processors (st : state) : list Z := map e_pid (sorted st).
@@ -224,10 +241,6 @@ Definition step (H : hier) (I : insts) (st : state) (o : op) (ob : obs) : option
       if get_processor H I st t (o_ret ob) && evs_eqb (o_log ob) []
          && zs_eqb (o_procs ob) (processors st) && o_flag ob
       then Some st else None
-  | OProcess dt =>
-      if evs_eqb (o_log ob) (process st dt) && zs_eqb (o_procs ob) (processors st)
-         && o_flag ob && opt_eqb (o_ret ob) None
-      then Some st else None
   | OEnable b =>
       let '(st', log) := set_enabled st b in
       if evs_eqb (o_log ob) log && zs_eqb (o_procs ob) (processors st') && o_flag ob
@@ -235,10 +248,55 @@ Definition step (H : hier) (I : insts) (st : state) (o : op) (ob : obs) : option
       then Some st' else None
   end.
 
+(* the actions of one body, replayed in order *)
+Fixpoint run_acts (H : hier) (I : insts) (st : state) (acts : list (op * obs)) : option state :=
+  match acts with
+  | [] => Some st
+  | (o, ob) :: acts =>
+      match step H I st o ob with Some st' => run_acts H I st' acts | None => None end
+  end.
+
+(* process(dt):
+     for processor in tuple(self._sorted_processors):            -- [snap]
+         if self._processors.get(type(processor)) is processor:  -- [registered]
+             processor.process(dt)                               -- the next observed body
+   Every body that ran must be the one the loop calls next, with this dt. *)
+Fixpoint run_frame (H : hier) (I : insts) (dt : Z) (snap : list entry) (st : state)
+         (bs : list body) : option state :=
+  match snap with
+  | [] => match bs with [] => Some st | _ :: _ => None end
+  | e :: snap =>
+      if registered st e then
+        match bs with
+        | b :: bs =>
+            if (b_pid b =? e_pid e) && (b_dt b =? dt) then
+              match run_acts H I st (b_acts b) with
+              | Some st' => run_frame H I dt snap st' bs
+              | None => None
+              end
+            else None
+        | [] => None
+        end
+      else run_frame H I dt snap st bs
+  end.
+
+Definition istep (H : hier) (I : insts) (st : state) (it : item) : option state :=
+  match it with
+  | Step o ob => step H I st o ob
+  | Frame dt bs ob =>
+      match run_frame H I dt (sorted st) st bs with
+      | Some st' =>
+          if (o_exn ob =? 0) && evs_eqb (o_log ob) [] && zs_eqb (o_procs ob) (processors st')
+             && o_flag ob && opt_eqb (o_ret ob) None
+          then Some st' else None
+      | None => None
+      end
+  end.
+
 Fixpoint run (H : hier) (I : insts) (st : state) (tr : trace) : option state :=
   match tr with
   | [] => Some st
-  | (o, ob) :: tr => match step H I st o ob with Some st' => run H I st' tr | None => None end
+  | it :: tr => match istep H I st it with Some st' => run H I st' tr | None => None end
   end.
 
 Record C07_case := { c_hier : hier; c_insts : insts; c_trace : trace }.
@@ -348,9 +406,6 @@ Definition spec_step (H : hier) (I : insts) (ss : sstate) (o : op) (ob : obs) : 
         else None
     | OGet t =>
         if answer_ok H (reg ss) t (o_ret ob) && evs_eqb (o_log ob) [] then Some ss else None
-    | OProcess dt =>
-        (* every listed processor once, in the listed order, with this dt *)
-        if evs_eqb (o_log ob) (map (fun p => ERun p dt) (o_procs ob)) then Some ss else None
     | OEnable b =>
         if b then
           if evs_eqb (o_log ob) (owed ss)
@@ -365,15 +420,66 @@ Definition spec_step (H : hier) (I : insts) (ss : sstate) (o : op) (ob : obs) : 
   | None => None
   end.
 
-Fixpoint spec_run (H : hier) (I : insts) (ss : sstate) (tr : trace) : option sstate :=
-  match tr with
+Fixpoint spec_acts (H : hier) (I : insts) (ss : sstate) (acts : list (op * obs)) : option sstate :=
+  match acts with
   | [] => Some ss
-  | (o, ob) :: tr =>
-      match spec_step H I ss o ob with Some ss' => spec_run H I ss' tr | None => None end
+  | (o, ob) :: acts =>
+      match spec_step H I ss o ob with Some ss' => spec_acts H I ss' acts | None => None end
+  end.
+
+Definition is_reg (ss : sstate) (p : Z) : bool :=
+  match find_pid p (reg ss) with Some _ => true | None => false end.
+
+(* a frame: [order] is world.processors as it was when the frame started.
+   The bodies that run are, in that order, exactly the processors of [order]
+   that are registered when their turn comes (whatever earlier bodies of the
+   frame added or removed), each once, each with dt; what a body does to the
+   world is judged operation by operation like a top-level operation *)
+Fixpoint spec_frame (H : hier) (I : insts) (dt : Z) (order : list Z) (ss : sstate)
+         (bs : list body) : option sstate :=
+  match order with
+  | [] => match bs with [] => Some ss | _ :: _ => None end
+  | p :: order =>
+      if is_reg ss p then
+        match bs with
+        | b :: bs =>
+            if (b_pid b =? p) && (b_dt b =? dt) then
+              match spec_acts H I ss (b_acts b) with
+              | Some ss' => spec_frame H I dt order ss' bs
+              | None => None
+              end
+            else None
+        | [] => None
+        end
+      else spec_frame H I dt order ss bs
+  end.
+
+(* [last]: world.processors as observed after the previous item *)
+Definition spec_istep (H : hier) (I : insts) (ss : sstate) (last : list Z) (it : item)
+  : option (sstate * list Z) :=
+  match it with
+  | Step o ob =>
+      match spec_step H I ss o ob with Some ss' => Some (ss', o_procs ob) | None => None end
+  | Frame dt bs ob =>
+      if negb (o_exn ob =? 0) then None else
+      match spec_frame H I dt last ss bs with
+      | Some ss' => if order_ok I (reg ss') (o_procs ob) then Some (ss', o_procs ob) else None
+      | None => None
+      end
+  end.
+
+Fixpoint spec_run (H : hier) (I : insts) (ss : sstate) (last : list Z) (tr : trace) : bool :=
+  match tr with
+  | [] => true
+  | it :: tr =>
+      match spec_istep H I ss last it with
+      | Some (ss', last') => spec_run H I ss' last' tr
+      | None => false
+      end
   end.
 
 Definition holds_b (c : C07_case) : bool :=
-  match spec_run (c_hier c) (c_insts c) sinit (c_trace c) with Some _ => true | None => false end.
+  spec_run (c_hier c) (c_insts c) sinit [] (c_trace c).
 Definition holds (c : C07_case) : Prop := holds_b c = true.
 
 (* ---- input domain ------------------------------------------------------ *)
@@ -381,10 +487,15 @@ Definition holds (c : C07_case) : Prop := holds_b c = true.
    itself in the hierarchy table *)
 Definition op_wf (I : insts) (o : op) : bool :=
   match o with OAdd p _ _ => declared I p | _ => true end.
+Definition item_wf (I : insts) (it : item) : bool :=
+  match it with
+  | Step o _ => op_wf I o
+  | Frame _ bs _ => forallb (fun b => forallb (fun oo => op_wf I (fst oo)) (b_acts b)) bs
+  end.
 Definition wf_b (c : C07_case) : bool :=
   nodupb (akeys (c_insts c))
   && forallb (fun pi => issub (c_hier c) (i_ty (snd pi)) (i_ty (snd pi))) (c_insts c)
-  && forallb (fun oo => op_wf (c_insts c) (fst oo)) (c_trace c).
+  && forallb (item_wf (c_insts c)) (c_trace c).
 Definition known_b (c : C07_case) : bool := false.
 
 Definition bit (b : bool) (n : nat) : nat := if b then n else 0%nat.
